@@ -518,6 +518,9 @@ func (c *Compiler) listElemCode(typ *runtime.Type) (Code, error) {
 
 func (c *Compiler) mapKeyCode(typ *runtime.Type) (Code, error) {
 	switch {
+	case typ.Kind() == reflect.String:
+		// like encoding/json: a key of string kind is used as it is, even if it implements TextMarshaler
+		return c.stringCode(typ, false)
 	case c.implementsMarshalText(typ):
 		return c.marshalTextCode(typ)
 	}
